@@ -25,7 +25,7 @@ SPECS = {
         profiles={"quick": [("MCQueryGen_core.cfg", None), ("MCQueryGen_schema.cfg", None)],
                   "thorough": [("MCQueryGen_core_t.cfg", None), ("MCQueryGen_schema_t.cfg", None)]},
         events={"quick": 3, "thorough": 3},
-        cap={"quick": 1500, "thorough": 12000},
+        cap={"quick": 1000, "thorough": 12000},
         nontrivial="translated",
     ),
     "C03": pcheck.PSpec(
@@ -34,7 +34,7 @@ SPECS = {
         profiles={"quick": [("MCQueryGen_schema.cfg", None)],
                   "thorough": [("MCQueryGen_schema_t.cfg", None)]},
         events={"quick": 6, "thorough": 12},
-        cap={"quick": 1200, "thorough": 12000},
+        cap={"quick": 800, "thorough": 12000},
     ),
     "C04": pcheck.PSpec(
         "C04",
@@ -63,7 +63,7 @@ SPECS = {
                      + [("MCQueryGen_c06_%s.cfg" % b, None, {"backend": b, "declv": "replace_A"}) for b in pcheck.ALL_BACKENDS]
                   for t in ("quick", "thorough")},
         events={"quick": 8, "thorough": 24},
-        cap={"quick": 1500, "thorough": 20000},
+        cap={"quick": 1000, "thorough": 20000},
         event_cfg="EventGen_wide.cfg",
     ),
     "C10": pcheck.PSpec(
@@ -72,7 +72,7 @@ SPECS = {
         profiles={"quick": [("MCQueryGen_types.cfg", None, {"md10": True, "checkwarn": True})],
                   "thorough": [("MCQueryGen_types_t.cfg", None, {"md10": True, "checkwarn": True})]},
         events={"quick": 8, "thorough": 24},
-        cap={"quick": 1200, "thorough": 20000},
+        cap={"quick": 1000, "thorough": 20000},
     ),
     "C11": pcheck.PSpec(
         "C11",
@@ -80,7 +80,7 @@ SPECS = {
         profiles={"quick": [("MCQueryGen_userfn.cfg", None, {"fnmd": True}), ("MCQueryGen_userfn_d.cfg", None, {"fnmd": True})],
                   "thorough": [("MCQueryGen_userfn_t.cfg", None, {"fnmd": True})]},
         events={"quick": 6, "thorough": 16},
-        cap={"quick": 1200, "thorough": 20000},
+        cap={"quick": 800, "thorough": 20000},
     ),
     "C12": pcheck.PSpec(
         "C12",
@@ -98,7 +98,7 @@ SPECS = {
         profiles={"quick": [("MCQueryGen_arithtable.cfg", None), ("MCQueryGen_arith.cfg", None)],
                   "thorough": [("MCQueryGen_arithtable.cfg", None), ("MCQueryGen_arith.cfg", None)]},
         events={"quick": 8, "thorough": 16},
-        cap={"quick": 1500, "thorough": 20000},
+        cap={"quick": 1000, "thorough": 20000},
     ),
 }
 
